@@ -90,11 +90,12 @@ DET1_ACCEPTED = {
 }
 
 spec("C01", "Docstring round trip",
-     [TB.rule_table_style, N.rule_null2, H.rule_invented_default, H.rule_empty_hole, coord("rule_coord_docstring", "docstring_parsers.parse_docstring", "emit.docstring"),
+     [TB.rule_table_style, N.rule_null2, H.rule_invented_default, H.rule_empty_hole, L.rule_quote_types, coord("rule_coord_docstring", "docstring_parsers.parse_docstring", "emit.docstring"),
       det3("docstring", "emit.docstring", "docstring_parsers.parse_docstring"), pit("docstring", "emit.docstring", "docstring_parsers.parse_docstring")],
      "Necessary conditions decided on the source: (INVENTED-DEFAULT) on the docstring reader's path a default is only ever taken from the text: every call of a function "
      "that writes the IR key 'default' with something other than what the default reader extracted, when one of its flag parameters is true, passes that flag as a constant "
-     "false; (EMPTY-HOLE) the explicit default '' is written as a value the reader recognises, never as the empty text; (TABLE-style) per docstring style, every section header / line marker the emitter writes contains a "
+     "false; (EMPTY-HOLE) the explicit default '' is written as a value the reader recognises, never as the empty text; (QUOTE-TYPES) the quoting helper, applied to every default whose "
+     "declared type mentions str, raises for no kind of default value (str, int, float, bool, None); (TABLE-style) per docstring style, every section header / line marker the emitter writes contains a "
      "detection token of that style, none of a style detected earlier, and is a header the style's scanner splits on; ARG/RETURN token tables are subsets of "
      "TOKENS. (NULL-2) the pending-parameter slot [None, {}] of the ReST parser cannot reach the name post-processing, which dereferences the name, without a "
      "test of its name element (the 'documents only a return value' crash). (COORD) the scanners and the writer never cut a docstring at a position that was measured on a stripped / case-folded / otherwise length-changed copy of it. (DET-3, scoped) no function on this property's code path writes state that outlives the call (module globals/objects, function or class attributes, mutated mutable defaults, memoised mutable results): the conversion is not history-dependent. (LATE-BIND / STALE-CAPTURE / SHARED-DEFAULT / STR-MEMBER, scoped) on this property's code path no closure created per iteration reads its loop variable late, no partial / lambda default captures a name that is rebound before the call, no mutable default is mutated, returned or stored, and no membership test is made against an identifier-like string (a tuple that lost its comma).",
@@ -103,8 +104,8 @@ spec("C01", "Docstring round trip",
      not_decided="IR equality after emit->parse (values); prose that itself contains a marker of another style; exceptions other than the definite None dereference")
 
 spec("C02", "Config-class round trip",
-     [named(O.rule_order, "rule_order_class", only=("emit.class_",)), TB.rule_table_cvar, scoped(FA.rule_falsy, "falsy_class", "emit.class_", "parse.class_"), named(FW.rule_fwd, "rule_fwd", accepted=FWD_ACCEPTED), det3("class", "emit.class_", "parse.class_"), pit("class", "emit.class_", "parse.class_")],
-     "Necessary conditions: (ORDER) the class emitter produces exactly one attribute per parameter, in mapping order, never None, named by the parameter's key, with "
+     [L.rule_quote_types, named(O.rule_order, "rule_order_class", only=("emit.class_",)), TB.rule_table_cvar, scoped(FA.rule_falsy, "falsy_class", "emit.class_", "parse.class_"), named(FW.rule_fwd, "rule_fwd", accepted=FWD_ACCEPTED), det3("class", "emit.class_", "parse.class_"), pit("class", "emit.class_", "parse.class_")],
+     "Necessary conditions: (QUOTE-TYPES) the quoting helper, applied to every default whose declared type mentions str (Union[int, str] = 3), raises for no kind of default value (str, int, float, bool, None): its type dispatch is run abstractly per kind; (ORDER) the class emitter produces exactly one attribute per parameter, in mapping order, never None, named by the parameter's key, with "
      "no filter/sort between the mapping and the attribute list; (TABLE-cvar) the ':cvar' marker and the reserved 'return_type' attribute written by the class "
      "emitter are exactly what the class and function parsers substitute / pop back. (FWD) an option the caller was given (word_wrap, emit_default_doc, docstring_format, ...) is forwarded to every callee that has the same option with a default - directly, through a partial or a wrapper; the confirmed exceptions are listed with reasons (props.FWD_ACCEPTED) or lie on the live-object path. (DET-3, scoped) no function on this property's code path writes state that outlives the call (module globals/objects, function or class attributes, mutated mutable defaults, memoised mutable results): the conversion is not history-dependent. (LATE-BIND / STALE-CAPTURE / SHARED-DEFAULT / STR-MEMBER, scoped) on this property's code path no closure created per iteration reads its loop variable late, no partial / lambda default captures a name that is rebound before the call, no mutable default is mutated, returned or stored, and no membership test is made against an identifier-like string (a tuple that lost its comma).",
      floors={"ORDER": 1, "TABLE-cvar": 4},
@@ -134,9 +135,9 @@ spec("C04", "argparse round trip",
      not_decided="required/default/Optional interplay, choices quoting, numeric vs string defaults (value-level)")
 
 spec("C06", "Emitted code is valid Python",
-     [A.rule_align_emit, O.rule_order, CT.rule_ctor, scoped(FA.rule_falsy, "falsy_emit", "emit.class_", "emit.function", "emit.argparse_function"),
+     [L.rule_quote_types, A.rule_align_emit, O.rule_order, CT.rule_ctor, scoped(FA.rule_falsy, "falsy_emit", "emit.class_", "emit.function", "emit.argparse_function"),
       det3("emit", "emit.class_", "emit.function", "emit.argparse_function", "emit.file"), pit("emit", "emit.class_", "emit.function", "emit.argparse_function", "emit.file"), F.rule_file5],
-     "Necessary conditions, for all inputs: (ALIGN-emit) every ast.arguments(...) the package builds satisfies Python's length invariants and aligns defaults with "
+     "Necessary conditions, for all inputs: (QUOTE-TYPES) the quoting helper, applied to every default whose declared type mentions str (Union[int, str] = 3), raises for no kind of default value (str, int, float, bool, None): its type dispatch is run abstractly per kind; (ALIGN-emit) every ast.arguments(...) the package builds satisfies Python's length invariants and aligns defaults with "
      "arguments as symbolic identities; (ORDER) names/order/count of attributes, arguments and options are those of the IR by construction; (CTOR) every ast node "
      "construction supplies the mandatory _fields of the running interpreter. (DET-3, scoped) no function on this property's code path writes state that outlives the call (module globals/objects, function or class attributes, mutated mutable defaults, memoised mutable results): the conversion is not history-dependent. (LATE-BIND / STALE-CAPTURE / SHARED-DEFAULT / STR-MEMBER, scoped) on this property's code path no closure created per iteration reads its loop variable late, no partial / lambda default captures a name that is rebound before the call, no mutable default is mutated, returned or stored, and no membership test is made against an identifier-like string (a tuple that lost its comma). (FILE-5c) existing content is not read through a handle opened for appending.",
      floors={"ALIGN-emit": 2, "ORDER": 4, "CTOR": 1},
